@@ -220,7 +220,9 @@ func fmtErrorSourceLineWithParser(p *syntax.Parser, cursorIdx int, withCursorMar
 	startIdx := cursorIdx
 	endIdx := startIdx
 	// append EOF to source to avoid index exceed exception
-	sourceT := append(p.GetSource(), 0)
+	// (onto a copy: appending to the source slice itself writes into the caller's array
+	// whenever that has spare capacity, e.g. a text cut out of a larger buffer)
+	sourceT := append(append([]rune{}, p.GetSource()...), 0)
 	for sourceT[startIdx] == syntax.RuneCR || sourceT[startIdx] == syntax.RuneLF {
 		startIdx -= 1
 	}
